@@ -40,6 +40,7 @@ EXPECTED_PROBES = ["writer_to_parquet", "writer_pack", "ge_11_partitions", "read
                    "box_covers_total_extent", "read_list_with_dataset_lacking_bounds",
                    "read_glob", "bounds_kw", "geometry_kw", "box_touches_partition_extent",
                    "box_disjoint_from_all", "partition_with_undefined_extent", "pruned_some",
+                   "second_generation_over_first",
                    "end_to_end_cx"]
 
 
@@ -76,6 +77,7 @@ def cases(tier, base_seed):
         rewrite = {"mod": rng.choice((2, 3)), "rem": rng.randint(0, 1)} \
             if rng.random() < 0.35 else None
         plain = None
+        regen = {"dx": rng.choice((1, 2, 3, -1, 4))} if rng.random() < 0.3 else None
         if rng.random() < 0.25:
             plain = {"rows": sorted(rng.sample(range(n), rng.randint(1, min(n, 6)))),
                      "first": rng.random() < 0.5, "box": gen.gen_box(rng)}
@@ -85,7 +87,7 @@ def cases(tier, base_seed):
             sim.update({"fine": True, "workers": rng.choice((2, 4, 8)),
                         "strategy": rng.choice(("random", "pct"))})
         yield {"seed": seed, "frame": spec, "writes": writes, "reads": reads, "rewrite": rewrite,
-               "plain": plain, "sim": sim, "store": e1.gen_store_cfg(rng)}
+               "plain": plain, "regen": regen, "sim": sim, "store": e1.gen_store_cfg(rng)}
         i += 1
 
 
@@ -158,11 +160,23 @@ def _overlaps(ext, box):
 
 
 def _drive(case, root, fs, probes, sig):
-    from spatialpandas.io import read_parquet_dask
-    spec = case["frame"]
-    geo = {c["name"]: c["kind"] for c in spec["cols"]}
     base = os.path.join(root, "sets")
     os.makedirs(base)
+    _generation(case, case["frame"], base, fs, probes, sig, 0)
+    if case.get("regen"):
+        # a second generation of every dataset, written over the first at the SAME paths after
+        # the first was read: same schema and partition counts, every coordinate translated
+        # (the recorded bounds text usually keeps its length), a subset of the rows or not
+        probes["second_generation_over_first"] = 1
+        sig["generation"] = 1
+        spec2 = gen.shift_spec(copy.deepcopy(case["frame"]), float(case["regen"]["dx"]))
+        _generation(case, spec2, base, fs, probes, sig, 1)
+
+
+def _generation(case, spec, base, fs, probes, sig, generation):
+    from spatialpandas.io import read_parquet_dask
+    geo = {c["name"]: c["kind"] for c in spec["cols"]}
+    over = {"overwrite": True} if generation else {}
     stored = {}      # ds -> list of partitions; partition = {"vals": {col: values}, "recs": [...]}
     for w in case["writes"]:
         gdf = gen.build_frame(spec, w["rows"])
@@ -175,11 +189,12 @@ def _drive(case, root, fs, probes, sig):
             probes["ge_11_partitions"] = 1
         ddf = e3.make_ddf(gdf, {"mode": "even", "k": max(1, min(w["nparts"], len(gdf)))})
         if w["writer"] == "to_parquet":
-            _guard("to_parquet", lambda: ddf.to_parquet("simfs://" + path), sig)
+            _guard("to_parquet", lambda: ddf.to_parquet("simfs://" + path, **over), sig)
         else:
             _guard("pack_partitions_to_parquet",
                    lambda: ddf.pack_partitions_to_parquet(path, filesystem=fs,
-                                                          npartitions=w["nparts"], p=8), sig)
+                                                          npartitions=w["nparts"], p=8,
+                                                          **over), sig)
         # ground truth: what each part file really holds, read from the OS in load order
         parts = []
         for f in e3.part_files(path):
@@ -201,7 +216,8 @@ def _drive(case, root, fs, probes, sig):
         flt = src[src["v"] % m["mod"] != m["rem"]]
         path = os.path.join(base, "ds_2")
         sig["writer"] = "rewrite"
-        _guard("to_parquet after filter", lambda: flt.to_parquet("simfs://" + path), sig)
+        _guard("to_parquet after filter",
+               lambda: flt.to_parquet("simfs://" + path, **over), sig)
         parts = []
         for f in e3.part_files(path):
             df = e3.read_part(f)
@@ -416,6 +432,10 @@ def shrink_candidates(case):
     if c.get("plain"):
         d = copy.deepcopy(c)
         d["plain"] = None
+        yield d
+    if c.get("regen"):
+        d = copy.deepcopy(c)
+        d["regen"] = None
         yield d
     if len(c["writes"]) > 1:
         d = copy.deepcopy(c)
